@@ -80,7 +80,7 @@ pub fn one_run(cfg: &gen_::Cfg, cfgid: &str, proc_name: &str, wd: &gen_::Workdir
     let r = guarded(|| -> Result<Value, rpm::Error> {
         let p = gen_::build(cfg, wd)?;
         let mut bytes = vec![];
-        p.write(&mut bytes)?;
+        p.write(&mut Plain(&mut bytes))?;
         let q = Package::parse(&mut &bytes[..])?;
         let mut times: Vec<u32> = vec![q.metadata.get_build_time()? as u32];
         for e in q.metadata.get_file_entries()? {
